@@ -64,6 +64,15 @@ def _spec(draw, tier):
         # a deletion right after its insertion is the pattern "deletions undo their insertions"
         if op["op"] == "insert" and draw(st.integers(0, 3)) == 0:
             oplist.append({"op": "delete_channel", "mech": op["mech"], "rows": op["rows"], "pick": 0.0, "same_as_insert": True})
+        # ... and a view-level deletion after (several) matching insertions on other rows
+        follow = {"record": "delete_recordings", "stimulate": "delete_stimuli", "clamp": "delete_clamps", "make_trainable": "delete_trainables"}
+        if op["op"] in follow and draw(st.integers(0, 2)) == 0:
+            second = dict(op, rows=draw(ops.ROWS))
+            oplist.append(second)
+            d = {"op": follow[op["op"]], "rows": draw(st.sampled_from([op["rows"], second["rows"], "all"]))}
+            if d["op"] == "delete_clamps":
+                d["state"] = draw(st.sampled_from([None, "v"]))
+            oplist.append(d)
     return {"kind": "network" if network else "cell", "cells": cells, "ops": oplist,
             "solver": draw(st.sampled_from(["bwd_euler", "bwd_euler", "crank_nicolson"])), "backend": draw(st.sampled_from(["jaxley.stone", "jax.sparse"]))}
 
